@@ -78,24 +78,24 @@ type pbView struct {
 }
 
 type pbChan struct {
-	idx     int
-	ch      *tchannel.Channel
-	hp      string // listening host:port, "" for a client-only channel
-	ticker  chan time.Time
-	cbMu    sync.Mutex
-	cbLog   []string
-	script  []int64
-	obs     []int64
-	sides   []*pbSide
-	lists   []*tchannel.PeerList
-	closed  bool
-	verdict string
-	failed  bool
-	tainted map[string]bool          // host:ports hit by the known finding
-	seen    map[string]map[uint32]bool // host:port -> connection ids ever observed listed
-	prev    *pbView
+	idx      int
+	ch       *tchannel.Channel
+	hp       string // listening host:port, "" for a client-only channel
+	ticker   chan time.Time
+	cbMu     sync.Mutex
+	cbLog    []string
+	script   []int64
+	obs      []int64
+	sides    []*pbSide
+	lists    []*tchannel.PeerList
+	closed   bool
+	verdict  string
+	failed   bool
+	tainted  map[string]bool            // host:ports hit by the known finding
+	seen     map[string]map[uint32]bool // host:port -> connection ids ever observed listed
+	prev     *pbView
 	parkWant [3]bool // park the next activation on this channel at round 1 / 2
-	nconn   int
+	nconn    int
 }
 
 type pbScenario struct {
